@@ -428,7 +428,8 @@ func configMain(args []string) error {
 	}
 	// (3) identity: one id per origin on every interface
 	sets := [][]string{{"verif.example/a"}, {"verif.example/a", "verif.example/b", "verif.example/a/b"}, {"go.sum database tree", "rekor.sigstore.dev - 1193050959916656506", "rekor.sigstore.dev - 2605736670972794746"},
-		{"with space", "with/slash", "ünïcode", "UPPER", "upper"}}
+		{"with space", "with/slash", "ünïcode", "UPPER", "upper"},
+		{" leading blank", "trailing blank ", "trailing/slash/", "trailing/slash", "Mixed.Case/Origin", "mixed.case/origin", "a//b", "a/./b", "100%/percent"}}
 	shipped := omniwitness.LogConfig{}
 	if yaml.Unmarshal(omniwitness.ConfigLogs, &shipped) == nil {
 		var os_ []string
